@@ -205,6 +205,25 @@ Theorem C06_scheduled_center_on_manifold : forall (a b : vec3) (q1 q2 : quat) (l
 Proof. exact scheduled_center_on_manifold. Qed.
 Print Assumptions C06_scheduled_center_on_manifold.
 
+(* ---- changing force constant / staged TI on manifold-valued variables (fixed centre): reduction to the scalar model ----
+   The energy and dU/dk of the harmonic restraint on a unit-vector (quaternion) variable are, step by step, those of the
+   scalar harmonic restraint (centre 0, same width, not periodic) on the geodesic distance theta (omega); hence
+   C06_k_schedule_any_segmentation, C06_k_schedule_staged, C06_acc_work_k_is_sum, C06_ti_stage_mean and
+   C06_ti_line_once_per_stage hold for such a restraint with the history of geodesic distances as values. *)
+Theorem C06_k_moving_on_unit_vector : forall (k w : R) (a b : vec3), (w <> 0)%R -> is_unit a -> is_unit b ->
+  exists th : R, (0 <= th <= PI /\ cos th = v3dot Rops a b /\
+    harm_potential_d2 Rops k w (uv_dist2 Rops a b) = harm_potential Rops k (mkVar w false 0 0) th 0 /\
+    harm_potential_d2 Rops 1 w (uv_dist2 Rops a b) = harm_dUdk Rops (mkVar w false 0 0) th 0)%R.
+Proof. exact manifold_reduction_unit. Qed.
+Print Assumptions C06_k_moving_on_unit_vector.
+
+Theorem C06_k_moving_on_quaternion : forall (k w : R) (a b : quat), (w <> 0)%R -> q_unit a -> q_unit b ->
+  exists om : R, (0 <= om <= PI / 2 /\ cos om = Rabs (qdot Rops a b) /\
+    harm_potential_d2 Rops k w (q_dist2 Rops PI a b) = harm_potential Rops k (mkVar w false 0 0) om 0 /\
+    harm_potential_d2 Rops 1 w (q_dist2 Rops PI a b) = harm_dUdk Rops (mkVar w false 0 0) om 0)%R.
+Proof. exact manifold_reduction_quat. Qed.
+Print Assumptions C06_k_moving_on_quaternion.
+
 (* ---- accumulated work (R instance) ------------------------------------------------------------- *)
 (* steps_of c evs = the steps of the history with their values, each step once (run boundaries and restarts
    compute a step again and add nothing).  W = sum over the steps s of dU/dk(x_s) (k(s) - k(s-1)), k the schedule. *)
